@@ -11,6 +11,7 @@ ClaimOnly == {"claim"}
 ClaimAssign == {"claim", "assign"}
 ClaimRel == {"claim", "relaff"}
 ClaimRelAssign == {"claim", "relaff", "assign"}
+AllOpsClaim == {"assign", "release", "relh", "relaff", "claim"}
 AssignOnly == {"assign"}
 AssignRel == {"assign", "release", "relh"}
 \* state-space reduction: P_IPAM's read sets are determined by the pcs
